@@ -31,7 +31,7 @@ ASSUMPTIONS = ["the stand-in cipher replaces real PKCS7 (prescribed by the prope
 REACH = [("yamlpath/commands/eyaml_rotate_keys.py", "main,validateargs", "eyaml_rotate_keys.main"),
          ("yamlpath/eyaml/eyamlprocessor.py", "_find_eyaml_paths,find_eyaml_paths,decrypt_eyaml,encrypt_eyaml,set_eyaml_value,is_eyaml_value", "EYAMLProcessor")]
 SIZES = {"quick": 800, "thorough": 10000}
-REQUIRED_COUNTERS = ["container_anchors_checked", "docs_with_secret_in_anchored_list_element", "folded_anchored_secrets", "rotations", "secrets_checked", "anchored_secret_docs", "folded_secrets", "no_secret_files", "lookalikes_checked", "backup_runs",
+REQUIRED_COUNTERS = ["dates_and_timestamps_checked", "container_anchors_checked", "docs_with_secret_in_anchored_list_element", "folded_anchored_secrets", "rotations", "secrets_checked", "anchored_secret_docs", "folded_secrets", "no_secret_files", "lookalikes_checked", "backup_runs",
                      "multi_file_runs", "secrets_with_cr_lf_tab", "secrets_with_split_marker", "dotted_secret_keys", "docs_with_secret_in_merge_source"]
 FAKE = os.path.join(VERIF_ROOT, "tools", "fake-eyaml")
 PLAIN = ["s3cret", "p@ss w0rd", "x", "multi word secret value", "0123456789" * 9, "a:b", "tr=ue",
@@ -76,7 +76,7 @@ class Gen:
         self.leaves = []          # (kind, plaintext) in document order of *definition sites*
         self.anchor_n = 0
         self.anchors = []         # (name, plaintext)
-        self.n_secret = self.n_look = self.n_folded = self.n_ctl = self.n_marker_split = self.n_dotted = self.n_merge = self.n_folded_anchored = self.n_tmpl = 0
+        self.n_secret = self.n_look = self.n_folded = self.n_ctl = self.n_marker_split = self.n_dotted = self.n_merge = self.n_folded_anchored = self.n_tmpl = self.n_dates = 0
 
     def leaf(self, indent, prefix, force=None):
         r = self.r
@@ -140,7 +140,12 @@ class Gen:
             self.lines.append("%s%s %s" % (pad, prefix, v))
             self.leaves.append(("lookalike", v))
         else:
-            v = r.choice(["plain", "42", "true", "null", "'quoted text'", "1.5", '"a b"'])
+            v = r.choice(["plain", "42", "true", "null", "'quoted text'", "1.5", '"a b"',
+                          # dates and timestamps (with offsets of every sign, whole and fractional hours)
+                          "2020-01-02", "2021-03-04 01:20:30-03:30", "2001-12-14T21:59:43.10-05:00", "2020-12-31T23:59:59+05:30",
+                          "2021-06-07 08:09:10Z", "2019-02-03 04:05:06-00:30", "2021-03-04 01:20:30 +09:00"])
+            if v[:2] in ("20", "19"):
+                self.n_dates += 1
             self.lines.append("%s%s %s" % (pad, prefix, v))
             self.leaves.append(("plain", v))
 
@@ -409,6 +414,8 @@ def check_file(ctx, case, fl, r, backup):
         ctx.counters["anchored_secret_docs"] = ctx.counters.get("anchored_secret_docs", 0) + 1
     if g.n_folded:
         ctx.counters["folded_secrets"] = ctx.counters.get("folded_secrets", 0) + g.n_folded
+    if g.n_dates:
+        ctx.counters["dates_and_timestamps_checked"] = ctx.counters.get("dates_and_timestamps_checked", 0) + g.n_dates
     if g.n_tmpl:
         ctx.counters["docs_with_secret_in_anchored_list_element"] = ctx.counters.get("docs_with_secret_in_anchored_list_element", 0) + 1
     if g.n_folded_anchored:
